@@ -15,6 +15,13 @@ PROPS = {
         ],
         "assumptions": ["refinement theorem proved for the Secret/ConfigMap driver model; the memory driver model is tied by correspondence (all three real drivers are compared step by step with their models and with the spec map) and by the key-parse guard/counterexample theorems"],
     },
+    "C14": {
+        "corr": [("schema", {"quick": 1200, "thorough": 25000})],
+        "trusted_base": [
+            "the validator of one schema is a parameter of the gate theorems; the santhosh-tekuri/jsonschema library is compared with an independent Lean evaluator on the generated schema family only (type, required, enum, numeric bounds, nested properties, additionalProperties:false); $ref, formats, patterns etc. are outside the family",
+        ],
+        "assumptions": ["'nothing is sent to the cluster or stored' on rejection is checked here for the dry-run install path; the ordering gate-before-writes of the real install/upgrade is part of the action model (C06/C07)"],
+    },
     "C15": {
         "corr": [("chartio", {"quick": 700, "thorough": 15000})],
         "trusted_base": [
